@@ -696,7 +696,7 @@ def _cycle_pattern(ix: Any, it: Any, comp: list[str], edges: dict[str, set[str]]
     fs = [it.func_by_qual[q] for q in comp]
     reasons = _Why()
     # (5) every cycle of the component contains a call that descends into a strict sub-object of a parameter
-    pat, why = _structural(ix, fs, edges or {})
+    pat, why = _structural(ix, fs, edges or {}, it)
     if pat is not None:
         return pat, ""
     reasons.add(1, why)
@@ -2058,17 +2058,23 @@ def _origins_of_result(e: ast.Call, h: FuncInfo, lc: Any, params: set[str], seen
     return out
 
 
-def _structural(ix: Any, fs: list[FuncInfo], edges: dict[str, set[str]]) -> tuple[str | None, str]:
+def _structural(ix: Any, fs: list[FuncInfo], edges: dict[str, set[str]], it: Any = None) -> tuple[str | None, str]:
     """(5) structural recursion on the finite document / property tree.  A call site DESCENDS when it hands on (as an argument or as the
     receiver) something reached from a parameter of the caller by attribute access, subscription or iteration, without handing on
     that parameter itself; `super().m()` descends the (finite) class hierarchy.  Every cycle of the component must contain a
-    descending call: the calls that do not descend form an acyclic graph."""
+    descending call: the calls that do not descend form an acyclic graph.
+    Descending is a ranking only on a structure that is a finite TREE, which depends on where the structure comes from: the objects
+    of the validated document model and of the parser's own classes are trees (pydantic refuses a value that contains itself and
+    builds new objects; the parser builds its objects bottom-up), so is whatever a JSON text is parsed into; what a YAML loader
+    hands back is not - an alias may refer to the node it stands in (`a: &a {b: *a}`), the value is a graph that can contain itself,
+    and a descent into it needs a visited set (argument 1).  A descent through a parameter that can hold such a value is no descent."""
     from ..astutil import Locals
 
     quals = {f.qual: f for f in fs}
     forward: dict[str, set[str]] = {q: set() for q in quals}
     located: set[tuple[str, str]] = set()
     n_desc = 0
+    notes: list[str] = []
     for f in fs:
         lc = Locals(f.node)
         params = {p.arg for p in f.params}
@@ -2093,9 +2099,13 @@ def _structural(ix: Any, fs: list[FuncInfo], edges: dict[str, set[str]]) -> tupl
             handed = list(c.args) + [k.value for k in c.keywords] + ([c.func.value] if isinstance(c.func, ast.Attribute) else [])
             orig = [_origins(a, lc, params, at=(ix, f, ())) for a in handed]
             whole = {p for o in orig for p, s in o if not s}
-            if any(s and p not in whole for o in orig for p, s in o):
+            through = sorted({p for o in orig for p, s in o if s and p not in whole})
+            graphs = [p for p in through if it is not None and (f.qual, p) in _graph_holders(ix, it)]
+            if through and not graphs:
                 n_desc += 1
                 continue
+            for p in graphs:
+                notes.append(f"`{p}` of {f.name} can be what a YAML loader handed back - a graph that may contain itself, not a tree")
             for g in tgts:
                 forward[f.qual].add(g.qual)
     # an edge of the call graph whose call site is not found (a call through a variable, getattr, ...) cannot be shown to descend
@@ -2123,8 +2133,104 @@ def _structural(ix: Any, fs: list[FuncInfo], edges: dict[str, set[str]]) -> tupl
             r = cyc(q, [])
             if r:
                 return None, ("not structural: the calls " + " -> ".join(x.rsplit(".", 1)[-1] for x in r)
-                              + " hand on no strict sub-object of a parameter (or hand the whole parameter on as well)")
+                              + " hand on no strict sub-object of a parameter (or hand the whole parameter on as well)"
+                              + "".join("; " + x for x in dict.fromkeys(notes)))
     return f"structural (every cycle passes one of {n_desc} calls that descend into a sub-object of a parameter)", ""
+
+
+def _yaml_load(f: FuncInfo, c: ast.Call) -> bool:
+    """the call parses YAML: a function of a yaml module (`yaml.safe_load`, ...) or the `load` / `load_all` of a loader object
+    (an object built by `YAML(...)`, whatever the local that holds it is called)"""
+    from ..astutil import Locals
+
+    cn = call_name(c)
+    last = cn.rsplit(".", 1)[-1]
+    if last not in ("load", "load_all", "safe_load", "safe_load_all", "full_load", "unsafe_load", "compose", "round_trip_load"):
+        return False
+    if "yaml" in cn.rsplit(".", 1)[0].lower() or (last != "load" and "." not in cn):
+        return True
+    recv = c.func.value if isinstance(c.func, ast.Attribute) else None
+    vals = [recv] if isinstance(recv, ast.Call) else []
+    if isinstance(recv, ast.Name):
+        vals = [v for _, _, v in Locals(f.node).defs.get(recv.id, []) if v is not None]
+    return any(isinstance(v, ast.Call) and "yaml" in call_name(v).lower() for v in vals)
+
+
+_GRAPH_HOLDERS: dict[int, set[tuple[str, str]]] = {}
+
+
+def _graph_holders(ix: Any, it: Any) -> set[tuple[str, str]]:
+    """(function, local or parameter) that can hold - or hold a part of, or a container of - what a YAML loader handed back.  Forward
+    from the load calls to a fixed point: through locals (an element of such a value is one), parameters (the arguments of every
+    call of a function of the repository), results of functions of the repository, parts (attribute, item, .items() / .values() /
+    .get()) and copying wrappers.  A value that went through anything else (model_validate, json.loads, a constructor) is a new
+    structure."""
+    from ..astutil import Locals
+
+    if id(ix) in _GRAPH_HOLDERS:
+        return _GRAPH_HOLDERS[id(ix)]
+    funcs = list(ix.all_functions)
+    if not any(isinstance(c, ast.Call) and _yaml_load(f, c) for f in funcs for c in _own_nodes(f.node)):
+        _GRAPH_HOLDERS[id(ix)] = set()
+        return set()
+    names: set[tuple[str, str]] = set()
+    rets: set[str] = set()
+    callees: dict[int, list[FuncInfo]] = {}
+
+    def of(f: FuncInfo, c: ast.Call) -> list[FuncInfo]:
+        if id(c) not in callees:
+            callees[id(c)] = _callees(ix, it, f, c)
+        return callees[id(c)]
+
+    def t(f: FuncInfo, e: ast.AST | None, d: int = 0) -> bool:
+        if e is None or d > 12:
+            return False
+        if isinstance(e, ast.Name):
+            return (f.qual, e.id) in names
+        if isinstance(e, (ast.Attribute, ast.Subscript, ast.Starred, ast.Await, ast.NamedExpr)):
+            return t(f, e.value, d + 1)
+        if isinstance(e, (ast.IfExp, ast.BoolOp)):
+            return any(t(f, x, d + 1) for x in _alternatives(e))
+        if isinstance(e, (ast.Tuple, ast.List, ast.Set)):
+            return any(t(f, x, d + 1) for x in e.elts)
+        if isinstance(e, ast.Dict):
+            return any(t(f, x, d + 1) for x in e.values)
+        if isinstance(e, (ast.ListComp, ast.SetComp, ast.GeneratorExp)):
+            return t(f, e.elt, d + 1)
+        if isinstance(e, ast.DictComp):
+            return t(f, e.value, d + 1)
+        if isinstance(e, ast.Call):
+            if _yaml_load(f, e):
+                return True
+            hs = of(f, e)
+            if hs:
+                return any(h.qual in rets for h in hs)
+            if isinstance(e.func, ast.Attribute) and e.func.attr in _ELEMENT_METHODS:
+                return t(f, e.func.value, d + 1)
+            if call_name(e).rsplit(".", 1)[-1] in _WRAPPERS:
+                return any(t(f, x, d + 1) for x in e.args)
+        return False
+
+    info = [(f, Locals(f.node), [n for n in _own_nodes(f.node) if isinstance(n, (ast.Call, ast.Return))]) for f in funcs]
+    for _ in range(12):
+        before = (len(names), len(rets))
+        for f, lc, nodes_ in info:
+            for name, defs in lc.defs.items():
+                if (f.qual, name) not in names and any(v is not None and not k.startswith(("aug", "with", "except")) and t(f, v) for k, _, v in defs):
+                    names.add((f.qual, name))
+            for n in nodes_:
+                if isinstance(n, ast.Return):
+                    if n.value is not None and f.qual not in rets and t(f, n.value):
+                        rets.add(f.qual)
+                    continue
+                for h in of(f, n):
+                    for p in h.params:
+                        if (h.qual, p.arg) not in names and t(f, _arg_for(h, n, p.arg)):
+                            names.add((h.qual, p.arg))
+        if (len(names), len(rets)) == before:
+            break
+    _GRAPH_HOLDERS[id(ix)] = names
+    return names
 
 
 # ---------------------------------------------------------------------------------------------------------------------------------
